@@ -51,14 +51,14 @@ theorem applyBin_ge_shape (l r : Arg N) (hl : ∀ m, blank0 l ≠ .err m) (hr : 
   cases l' <;> cases r' <;> simp_all [ordRes]
 
 theorem applyBin_eq_shape (l r : Arg N) (hl : ∀ m, blank0 l ≠ .err m) (hr : ∀ m, blank0 r ≠ .err m) :
-    applyBin .eq l r = .ok (mkBool (decide (value (blank0 r) = value (blank0 l)))) := by
+    applyBin .eq l r = .ok (mkBool (calcEqual (blank0 r) (blank0 l))) := by
   simp only [applyBin]
   generalize blank0 l = l' at hl ⊢
   generalize blank0 r = r' at hr ⊢
   cases l' <;> cases r' <;> simp_all
 
 theorem applyBin_ne_shape (l r : Arg N) (hl : ∀ m, blank0 l ≠ .err m) (hr : ∀ m, blank0 r ≠ .err m) :
-    applyBin .ne l r = .ok (mkBool (decide (value (blank0 r) ≠ value (blank0 l)))) := by
+    applyBin .ne l r = .ok (mkBool (!calcEqual (blank0 r) (blank0 l))) := by
   simp only [applyBin]
   generalize blank0 l = l' at hl ⊢
   generalize blank0 r = r' at hr ⊢
